@@ -523,7 +523,9 @@ func (s *shapeV) rule(w string, v interface{}) {
 		if o.Has("scalarValue") {
 			s.errf("node-typing", "%s: %s rule with scalarValue", w, tt)
 		}
-		if o.Has("children") {
+		if !o.Has("children") {
+			s.errf("node-typing", "%s: %s rule without children", w, tt)
+		} else {
 			ch, ok := o.M["children"].([]interface{})
 			if !ok {
 				s.errf("wrong-type", "%s.children is not an array", w)
